@@ -66,6 +66,7 @@ def check(c: Check):
         clause_d(c)
     clause_f(c)
     clause_g(c)
+    clause_h(c)
 
 
 # ---------------------------------------------------------------- a
@@ -533,3 +534,138 @@ def clause_g(c: Check):
     want = sum(1 for line in fm.src.splitlines() if '# EXPECT index' in line)
     if len(bad) != want or total < want + 1:
         raise AnalysisError('C18-g: positive control failed: %d of %d fixture searches reported, expected %d' % (len(bad), total, want))
+
+
+# ---------------------------------------------------------------- h
+def _only_none_fields_used(ix: Index, modules, stores) -> list:
+    """[(class, attribute, use node, method)]: the attribute is assigned only in __init__ and only the constant
+    None, nothing in the repository stores to an attribute of that name, and a method uses it as a value - hands it
+    to a call, reads an attribute / element of it, computes with it. (Returning it, or testing it for None, is what
+    one does with a value that may be None.)"""
+    out = []
+    for m in modules:
+        for k in m.all_classes:
+            init = k.methods.get('__init__')
+            if init is None or not init.self_name:
+                continue
+            none_attrs = set()
+            for s in walk_own(init.node):
+                if isinstance(s, ast.Assign) and isinstance(s.value, ast.Constant) and s.value.value is None:
+                    for tg in s.targets:
+                        if isinstance(tg, ast.Attribute) and isinstance(tg.value, ast.Name) and tg.value.id == init.self_name:
+                            none_attrs.add(tg.attr)
+            for a in sorted(none_attrs):
+                if stores(k, a) != 1:
+                    continue
+                if any(isinstance(x, ast.Call) and isinstance(x.func, ast.Name) and x.func.id == 'setattr'
+                       for x in ast.walk(k.node)) or '__dict__' in ast.unparse(k.node):
+                    continue
+                for meth in k.methods.values():
+                    if not meth.self_name:
+                        continue
+                    for x in ast.walk(meth.node):
+                        if not (isinstance(x, ast.Attribute) and x.attr == a and isinstance(x.ctx, ast.Load)
+                                and isinstance(x.value, ast.Name) and x.value.id == meth.self_name):
+                            continue
+                        par = parent(x)
+                        used = False
+                        if isinstance(par, ast.Call) and (x in par.args or any(kw.value is x for kw in par.keywords)):
+                            used = True
+                        elif isinstance(par, (ast.Attribute, ast.Subscript)) and par.value is x:
+                            used = True
+                        elif isinstance(par, ast.BinOp):
+                            used = True
+                        elif isinstance(par, ast.Call) and par.func is x:
+                            used = True
+                        if used:
+                            out.append((k, a, x, meth))
+    return out
+
+
+def clause_h(c: Check):
+    """contradiction "only ever None, used as a value": a field that the constructor sets to None and nothing ever
+    sets to anything else is None whenever it is read; a method that hands it to a call or dereferences it computes
+    with None - the TypeError / AttributeError surfaces as INTERNAL_ERROR for a test case that is not even wrong
+    (D18: `SdvValidatorFromDdvValidator._hds`)"""
+    ix = c.ix
+    self_stores = {}    # (class, attr) -> number of `self.attr = ..` in the methods of the class
+    other_stores = {}   # attr -> number of stores through something else than self, anywhere
+    mods = []
+    for name in ix.all_module_names():
+        t = ix.text(name)
+        if 'self.' not in t:
+            continue
+        m = ix.module(name)
+        mods.append(m)
+        for x in ast.walk(m.tree):
+            if not (isinstance(x, ast.Attribute) and isinstance(x.ctx, (ast.Store, ast.Del))):
+                continue
+            f = m.enclosing_func(x)
+            owner = f
+            while owner is not None and owner.cls is None:
+                owner = owner.parent
+            if owner is not None and isinstance(x.value, ast.Name) and x.value.id == owner.self_name:
+                self_stores[(owner.cls, x.attr)] = self_stores.get((owner.cls, x.attr), 0) + 1
+            else:
+                other_stores[x.attr] = other_stores.get(x.attr, 0) + 1
+
+    family_cache = {}
+
+    def family(k):
+        if k not in family_cache:
+            fam = {b for b in ix.mro(k) if isinstance(b, ClassDef)}
+            fam |= set(ix.subclasses_of(k)) if any(kk is k for (kk, _) in none_owner) else set()
+            family_cache[k] = fam
+        return family_cache[k]
+
+    none_owner = set()
+    cand_mods = [m for m in mods if '= None' in m.src]
+    for m in cand_mods:
+        for k in m.all_classes:
+            init = k.methods.get('__init__')
+            if init is None or not init.self_name:
+                continue
+            for s_ in walk_own(init.node):
+                if isinstance(s_, ast.Assign) and isinstance(s_.value, ast.Constant) and s_.value.value is None:
+                    for tg in s_.targets:
+                        if isinstance(tg, ast.Attribute) and isinstance(tg.value, ast.Name) and tg.value.id == init.self_name \
+                                and self_stores.get((k, tg.attr), 0) == 1 and not other_stores.get(tg.attr):
+                            none_owner.add((k, tg.attr))
+
+    def stores(k, a):
+        if (k, a) not in none_owner:
+            return 99
+        return sum(self_stores.get((kk, a), 0) for kk in family(k)) + other_stores.get(a, 0)
+
+    found = _only_none_fields_used(ix, cand_mods, stores)
+    for k, a, x, meth in found:
+        c.bad('C18-h', 'only-none-field-used/%s.%s@%s' % (k.key, a, meth.name),
+              '%s.%s is set to None by the constructor and never to anything else, yet %s uses it as a value (%s): the '
+              'method fails with a TypeError / AttributeError - INTERNAL_ERROR - whenever that value is needed' % (
+                  k.name, a, meth.name, unparse(parent(x))[:70]), '%s:%d' % (k.module.relpath, x.lineno))
+    c.floor('C18-h', 'modules scanned for fields that are only ever None', len(mods), 500)
+    if not found:
+        c.ok('C18-h', 'no-only-none-field-used-as-a-value', detail='%d modules' % len(mods))
+    import os
+    from ..report import VERIF_ROOT
+    fx = Index(os.path.join(VERIF_ROOT, 'fixtures', 'evaluators'))
+    fm = fx.module('exactly_lib.impls.fixture_none_field')
+    cnt = {}
+    for x in ast.walk(fm.tree):
+        if isinstance(x, ast.Attribute) and isinstance(x.ctx, (ast.Store, ast.Del)):
+            cnt[x.attr] = cnt.get(x.attr, 0) + 1
+    # per class in the fixture (names are reused between its classes): count stores inside the class only
+    got = []
+    for k in fm.all_classes:
+        kc = {}
+        for x in ast.walk(k.node):
+            if isinstance(x, ast.Attribute) and isinstance(x.ctx, (ast.Store, ast.Del)):
+                kc[x.attr] = kc.get(x.attr, 0) + 1
+
+        class _M:
+            all_classes = [k]
+        got += _only_none_fields_used(fx, [_M], lambda k_, a, kc=kc: kc.get(a, 0))
+    want = sum(1 for line in fm.src.splitlines() if '# EXPECT none-field' in line)
+    if len(got) != want or {g[0].name for g in got} != {'Broken'}:
+        raise AnalysisError('C18-h: positive control failed: %d uses reported in %s, expected %d in Broken' % (
+            len(got), sorted({g[0].name for g in got}), want))
